@@ -221,26 +221,185 @@ def level1(c, binp, q):
     return runs, nontrivial
 
 
+# ------------------------------------------------------------------------------------------ graph level
+GRAPH_INVS = ["EqualAtDelivery", "AllInvoked", "ErrorAggregates", "NonInterference", "ExclusiveMutable",
+              "MutatorCanMutate", "SharedIsReadOnly", "AdvertiseIff"]
+
+
+def graph_cfg(maxp, procs, exps, undecl, emit):
+    return ("SPECIFICATION Spec\nCONSTANTS\n  MaxN = %d\n  MaxP = %d\n  ProcSeqs <- %s\n  ExpSeqs <- %s\n"
+            "  WithConn = TRUE\n  UndeclSet <- %s\n%s%s\nCHECK_DEADLOCK FALSE\n"
+            % (2 * maxp, maxp, procs, exps, undecl, "INVARIANT EmitG\n" if emit else "INVARIANT TypeOK\n",
+               "\n".join("INVARIANT " + i for i in GRAPH_INVS)))
+
+
+def graph_generate(c, maxp, procs, exps, undecl, label, simulate=None, count=False, timeout=1500):
+    kw = dict(cfg_text=graph_cfg(maxp, procs, exps, undecl, True), workers=1, timeout=timeout, count=count, heap="8g",
+              label=label)
+    if simulate:
+        kw.update(simulate="num=%d" % simulate, depth=80, seed=c.seed)
+    r = c.tlc("Fanout", "FanoutGraphGen", **kw)
+    if r.timed_out:
+        raise vlib.Inconclusive("graph generator %s timed out" % label)
+    if r.error is not None or r.rc != 0:
+        raise vlib.Inconclusive("graph-level design check / generator %s failed: %s\n%s" % (label, r.error, r.trace_text[:2500]))
+    seen, out = set(), []
+    for b in r.printed:
+        k = json.dumps(b, sort_keys=True)
+        if k not in seen:
+            seen.add(k)
+            out.append(b)
+    return out, r
+
+
+def ensure_gomod(harness):
+    """vlib.repo_modules() skips directories named testdata, so the module pdata/testdata (needed by
+    service/internal/builders via processortest) gets no replace line; add it (gen_gomod keeps a go.mod whose
+    header is unchanged)."""
+    hdir = os.path.join(vlib.VERIF, "harness", harness)
+    vlib.gen_gomod(hdir)
+    gm = os.path.join(hdir, "go.mod")
+    line = "replace go.opentelemetry.io/collector/pdata/testdata => %s/pdata/testdata\n" % vlib.REPO
+    txt = open(gm).read()
+    if line not in txt:
+        txt = "".join(l for l in txt.splitlines(True) if "collector/pdata/testdata =>" not in l or not l.startswith("replace "))
+        with open(gm, "w") as fh:
+            fh.write(txt.rstrip("\n") + "\n" + line)
+
+
+class GRuns:
+    def __init__(self):
+        self.list, self.model = [], {}
+
+    def add(self, beh, sig, pv):
+        i = len(self.list) + 1
+        r = {k: beh[k] for k in ("np", "procs", "exps", "conn", "connMut", "rcv", "sender", "roIn", "undecl", "n", "leaves")}
+        r.update(id=i, sig=sig, pv=pv)
+        self.list.append(r)
+        self.model[i] = beh
+        return r
+
+
+def graph_report(c, viols, gr):
+    by = collections.OrderedDict()
+    for v in viols:
+        by.setdefault(v["id"], []).append(v)
+    for rid, vs in list(by.items())[:10]:
+        r = gr.list[rid - 1]
+        clauses = sorted(set(v["clause"] for v in vs))
+        c.violation("graph: clause(s) %s false on the real timeline (first at recorded line %d): %s pipelines procs=%s "
+                    "exps=%s conn=%s connMut=%s shared receiver in %s, sender=%s roIn=%s undecl=%s"
+                    % (",".join(clauses), min(v["line"] for v in vs), r["sig"], r["procs"], r["exps"], r["conn"],
+                       r["connMut"], r["rcv"], "shared" if r["sender"] == 0 else "probe%d" % r["sender"], r["roIn"],
+                       r["undecl"]), replay_obj=dict(level="graph", scenario=r, clauses=clauses))
+    return len(by)
+
+
+def graph_level(c, gbin, q):
+    gr = GRuns()
+    if c.replay:
+        rp = json.load(open(c.replay))["replay"]
+        if rp.get("level") != "graph":
+            return gr, 0
+        gr.add(dict(rp["scenario"], adv=None), rp["scenario"]["sig"], rp["scenario"]["pv"])
+        viols, _, _ = run_level(c, gbin, gr.list, "greplay", 1)
+        graph_report(c, viols, gr)
+        c.traces_validated += 1
+        return gr, 0
+    k = 0
+    if q:
+        # one run = exhaustive design check (all clauses are invariants) AND generator
+        behs, r = graph_generate(c, 2, "Procs1", "Exps1", "OnlyTrue", "gdesign+gen", count=True)
+        c.log("graph design check + generation: %d distinct states, %d runs, %.0fs" % (r.distinct, len(behs), r.wall))
+        for b in behs:
+            k += 1
+            gr.add(b, SIGS[k % 4], k % 3)
+    else:
+        for maxp, procs, exps, und, lab in ((2, "Procs2", "Exps2", "B", "gdesign2"), (3, "ProcsT", "Exps0", "OnlyTrue", "gdesign3")):
+            r = c.tlc_must_pass("Fanout", "FanoutGraphMC", cfg_text=graph_cfg(maxp, procs, exps, und, False),
+                                timeout=2400, label=lab, workers=min(vlib.NCPU, 12), heap="10g")
+            c.log("graph design check %s: %d distinct states, depth %d, %.0fs" % (lab, r.distinct, r.depth, r.wall))
+        behs, r = graph_generate(c, 2, "Procs2", "Exps1", "B", "ggen", timeout=2400)
+        c.log("graph generation: %d runs, %.0fs" % (len(behs), r.wall))
+        for b in behs:
+            for j in range(2):
+                k += 1
+                gr.add(b, SIGS[k % 4], k % 3)
+    nexh = len(gr.list)
+    if not behs:
+        raise vlib.Inconclusive("graph generator printed nothing")
+    kinds = dict(conn=sum(1 for b in behs if any(b["conn"])), shared=sum(1 for b in behs if b["sender"] == 0 and len(b["rcv"]) > 1),
+                 probe=sum(1 for b in behs if b["sender"] > 0), mproc=sum(1 for b in behs if any(any(p) for p in b["procs"])),
+                 mconn=sum(1 for b in behs if any(b["connMut"])), ro=sum(1 for b in behs if b["roIn"]))
+    if min(kinds.values()) == 0:
+        raise vlib.Inconclusive("vacuous graph generation: %s" % kinds)
+    for maxp, num in ([(3, 300)] if q else [(3, 5000), (4, 4000)]):
+        sim, _ = graph_generate(c, maxp, "Procs1", "Exps1", "B", "gsim%d" % maxp, simulate=num)
+        for b in sim:
+            k += 1
+            gr.add(b, SIGS[k % 4], k % 3)
+    c.log("graph level: %d runs (%d bounded-exhaustive, %d simulated)" % (len(gr.list), nexh, len(gr.list) - nexh))
+    viols, obs, nl = run_level(c, gbin, gr.list, "g", 4 if q else 10)
+    nbad = graph_report(c, viols, gr)
+    c.traces_validated += len(gr.list)
+    c.log("graph level: %d timelines (%d events) checked by the monitor, %d with a false clause" % (len(gr.list), nl, nbad))
+    # strict: advertised capability predicted by FanoutGraph.tla (PipeCap / FanCap) vs. observed
+    diff, first = 0, None
+    for f in obs:
+        for line in open(f):
+            if line.startswith('{"ev":"reset"'):
+                e = json.loads(line)
+                m = gr.model[e["id"]]
+                if m["adv"] != e["adv"]:
+                    diff += 1
+                    first = first or "procs=%s exps=%s conn=%s sender=%s: model adv=%s code adv=%s" % (
+                        m["procs"], m["exps"], m["conn"], m["sender"], m["adv"], e["adv"])
+    if diff:
+        c.model_drift("graph: %d runs where the advertised capability differs from FanoutGraph.tla (%s)" % (diff, first))
+    ev = vlib.read_ndjson(obs[0])
+    i0 = next((i for i, e in enumerate(ev) if e["ev"] == "reset" and e["n"] >= 2 and gr.model[e["id"]]["sender"] == 0
+               and any(any(p) for p in gr.model[e["id"]]["procs"])), 0)
+    i1 = next((i for i in range(i0 + 1, len(ev)) if ev[i]["ev"] == "reset"), len(ev))
+    c.sample(dict(kind="recorded graph-level timeline accepted by the monitor", config=gr.list[ev[i0]["id"] - 1], events=ev[i0:i1]))
+    return gr, sum(1 for r in gr.list if r["n"] >= 2)
+
+
 def run(c):
     q = c.quick()
-    # 1. design
-    r = c.tlc_must_pass("Fanout", "FanoutMC", cfg_text=mc_cfg(3 if q else 4), coverage=True, timeout=1200,
-                        label="design", workers=min(vlib.NCPU, 8 if q else 12))
-    c.log("design check: %d distinct states, depth %d, %.0fs" % (r.distinct, r.depth, r.wall))
+    ensure_gomod("fanoutgraph")
     binp = c.go_build("fanout", pkg="./cmd")
-    runs, nontrivial = level1(c, binp, q)
+    gbin = c.go_build("fanoutgraph", pkg="./cmd")
+
+    def l1():
+        # 1. design
+        r = c.tlc_must_pass("Fanout", "FanoutMC", cfg_text=mc_cfg(3 if q else 4), coverage=True, timeout=1800,
+                            label="design", workers=min(vlib.NCPU, 6 if q else 10))
+        c.log("design check: %d distinct states, depth %d, %.0fs" % (r.distinct, r.depth, r.wall))
+        return level1(c, binp, q)
+
+    # the two levels are independent: run them side by side
+    with ThreadPoolExecutor(max_workers=2) as ex:
+        f1 = ex.submit(l1)
+        f2 = ex.submit(graph_level, c, gbin, q)
+        runs, nontrivial = f1.result()
+        gruns, gnontrivial = f2.result()
 
     c.exhaustive = True
     c.evaluations = c.traces_validated
+    c.extra["runs"] = dict(fanout=len(runs.list), graph=len(gruns.list))
     c.assumptions += [
         "canonical proto bytes (ProtoMarshaler) are a faithful rendering of payload content; equal bytes = equal content",
         "object identity is read from the pdata wrapper's `orig` pointer by reflection (used only to say 'shared')",
         "asynchronous consumers are exercised at two scripted moments on the real code (before the next sibling is "
         "invoked / after the fan-out returned); arbitrary interleavings are covered by the design check only",
+        "graph level: one signal per graph (same-signal connectors), leaf exporters are not shared between pipelines, "
+        "each pipeline is reached over one path; processors pass on the payload they were given",
         "deep-copy correctness of pdata beyond the payload shapes used here is C07's subject",
     ]
     c.finish_args = dict(
         rule="every fan-out scenario with <= N consumers (capability x failure x program per consumer, read-only or "
-             "mutable input) enumerated by TLC breadth-first, run on all four signals; plus reduced products at N+1 and "
-             "TLC-simulated larger scenarios; non-trivial = >= 2 consumers and at least one mutation attempted",
-        distinct_nontrivial=nontrivial)
+             "mutable input) enumerated by TLC breadth-first, run on all four signals and through the connector routers; "
+             "reduced products at N+1; every pipeline graph within the bound (processor chains x exporter lists x "
+             "connectors x receiver wiring x sender) enumerated by TLC and built by graph.Build; plus TLC-simulated "
+             "larger scenarios/graphs; non-trivial = >= 2 consumers (and, level 1, at least one mutation attempted)",
+        distinct_nontrivial=nontrivial + gnontrivial)
